@@ -1143,7 +1143,7 @@ func lengthDecoder(fn *ssa.Function) string {
 // bytesDecoder: fn reads a length through a lengthDecoder and stores a slice
 // of the buffer through its pointer parameter. Returns the length call.
 func bytesDecoder(fn *ssa.Function) *ssa.Call {
-	if fn == nil || fn.Blocks == nil || len(fn.Params) != 2 || byteSliceParam(fn) == nil {
+	if fn == nil || fn.Blocks == nil || byteSliceParam(fn) == nil {
 		return nil
 	}
 	var lc *ssa.Call
@@ -1153,6 +1153,13 @@ func bytesDecoder(fn *ssa.Function) *ssa.Call {
 		}
 	}
 	if lc == nil {
+		return nil
+	}
+	// the body handed back as a result: (body, rest []byte, err error)
+	if bytesBodyResult(fn) >= 0 {
+		return lc
+	}
+	if len(fn.Params) != 2 {
 		return nil
 	}
 	for _, b := range fn.Blocks {
@@ -1169,12 +1176,66 @@ func bytesDecoder(fn *ssa.Function) *ssa.Call {
 	return nil
 }
 
+// bytesBodyResult: fn takes the buffer alone and returns exactly two byte slices (and an error): the body, a
+// prefix buf[:n] of what follows the length on some successful return, and the rest, a suffix buf[n:]. Returns
+// the index of the body result, or -1 when fn does not have that shape.
+func bytesBodyResult(fn *ssa.Function) int {
+	if fn == nil || fn.Blocks == nil || len(fn.Params) != 1 || !isByteSlice(fn.Params[0].Type()) {
+		return -1
+	}
+	res := fn.Signature.Results()
+	var idx []int
+	for i := 0; i < res.Len(); i++ {
+		if isByteSlice(res.At(i).Type()) {
+			idx = append(idx, i)
+		}
+	}
+	if len(idx) != 2 || ir.ErrorResultIndex(fn.Signature) < 0 {
+		return -1
+	}
+	body := -1
+	for _, r := range fxSuccessReturns(fn) {
+		for k, i := range idx {
+			if i >= len(r.Results) {
+				return -1
+			}
+			sl, ok := r.Results[i].(*ssa.Slice)
+			if !ok {
+				continue
+			}
+			other, isO := r.Results[idx[1-k]].(*ssa.Slice)
+			if sl.High != nil && sl.Low == nil && isO && other.High == nil && other.Low != nil {
+				if body >= 0 && body != i {
+					return -1
+				}
+				body = i
+			}
+		}
+	}
+	return body
+}
+
+// bytesBodyOf: the body a call of a bytes decoder yields when it hands it back as a result.
+func bytesBodyOf(call *ssa.Call) ssa.Value {
+	bi := bytesBodyResult(ir.Callee(call.Call))
+	if bi < 0 || call.Referrers() == nil {
+		return nil
+	}
+	for _, r := range *call.Referrers() {
+		if e, ok := r.(*ssa.Extract); ok && e.Index == bi {
+			return e
+		}
+	}
+	return nil
+}
+
 type sliceDecoderInfo struct {
 	Kind     string // "eface" | "string"
 	Length   *ssa.Call
 	Bytes    *ssa.Call
 	ElemStor *ssa.Store // the store of the decoded element
 	BodyCell *ssa.Alloc
+	BodyVal  ssa.Value // the body as a result of the bytes decoder (no out-parameter)
 }
 
 // decoderGroup is fn together with the static in-repo functions it calls
@@ -1255,6 +1316,7 @@ func sliceDecoder(fn *ssa.Function) *sliceDecoderInfo {
 				if len(c.Call.Args) == 2 {
 					info.BodyCell, _ = c.Call.Args[1].(*ssa.Alloc)
 				}
+				info.BodyVal = bytesBodyOf(c)
 			}
 			if fxFullName(callee) == "reflect.New" && fromParamOrCapture(c.Call.Args[0]) {
 				usesReflectNew = true
@@ -1995,7 +2057,7 @@ func zeroLenCheck(c *Ctx, dec *ssa.Function) {
 		}}
 		reach := as.reach(fn0(bfn))
 		stored := false
-		var where *ssa.Store
+		var where ssa.Instruction
 		for b := range reach {
 			for _, ins := range b.Instrs {
 				if st, ok := ins.(*ssa.Store); ok {
@@ -2003,6 +2065,15 @@ func zeroLenCheck(c *Ctx, dec *ssa.Function) {
 						stored = true
 						where = st
 					}
+				}
+			}
+		}
+		// the body handed back as a result: nil, literally, on every successful return a zero length reaches
+		if bi := bytesBodyResult(bfn); bi >= 0 {
+			for _, r := range successIn(bfn, reach) {
+				if bi >= len(r.Results) || !ir.IsNilConst(r.Results[bi]) {
+					stored = true
+					where = r
 				}
 			}
 		}
@@ -2020,6 +2091,9 @@ func zeroLenCheck(c *Ctx, dec *ssa.Function) {
 		return
 	}
 	isBody := func(v ssa.Value) bool {
+		if sinfo.BodyVal != nil && v == sinfo.BodyVal {
+			return true
+		}
 		u, ok := v.(*ssa.UnOp)
 		return ok && u.Op == token.MUL && sinfo.BodyCell != nil && u.X == ssa.Value(sinfo.BodyCell)
 	}
@@ -2283,7 +2357,15 @@ func bodyFreshCheck(c *Ctx, dec *ssa.Function) {
 	sort.Slice(fns, func(i, j int) bool { return ir.PosLess(fns[i].Pos(), fns[j].Pos()) })
 	for _, fn := range fns {
 		for _, call := range staticCallsIn(fn) {
-			if seen[call] || bytesDecoder(ir.Callee(call.Call)) == nil || len(call.Call.Args) != 2 {
+			if seen[call] || bytesDecoder(ir.Callee(call.Call)) == nil {
+				continue
+			}
+			if len(call.Call.Args) != 2 {
+				// the body is a result of the call: a value of its own in every iteration, nil for a zero length (ZEROLEN)
+				if h := innermostLoopHeader(call.Block()); h != nil && bytesBodyOf(call) != nil {
+					seen[call] = true
+					c.OK(c.P.InstrPos(call), "body cell of "+fn.Name(), "the body is a result of the bytes decoder: a fresh value for every element", false)
+				}
 				continue
 			}
 			seen[call] = true
